@@ -59,7 +59,8 @@ BetaLaws == (kind = "betainc" /\ done) =>
    /\ p < q => Cmp(BetaIncNum(a, b, p, q), BetaIncNum(a, b, p + 1, q)) <= 0
 
 \* ---- parameter grids for the uninterpreted parts (rationals <<num, den>>) ----
-ABGrid == {<<1, 20>>, <<1, 4>>, <<1, 2>>, <<1, 1>>, <<3, 2>>, <<5, 2>>, <<21, 2>>, <<301, 4>>, <<300, 1>>}
+\* (binary fractions and integers, and decimal fractions whose float images are inexact: sums such as a+1, a+b+2 then round)
+ABGrid == {<<1, 20>>, <<1, 5>>, <<1, 4>>, <<1, 3>>, <<1, 2>>, <<1, 1>>, <<3, 2>>, <<5, 2>>, <<13, 5>>, <<37, 5>>, <<21, 2>>, <<301, 4>>, <<300, 1>>}
 XBase == {<<0, 1>>, <<1, 1>>, <<1, 1000000>>, <<999999, 1000000>>, <<1, 100>>, <<1, 10>>, <<1, 4>>, <<1, 2>>, <<3, 4>>, <<9, 10>>, <<99, 100>>}
 \* mean a/(a+b) and switch-over (a+1)/(a+b+2), each also shifted by +-1/1000 (as rationals: n1/d1 over n2/d2 ...)
 RatDiv(x, y) == <<x[1] * y[2], x[2] * y[1]>>
